@@ -179,6 +179,43 @@ class A(Adapter):
             return "all_clean"
         return None
 
+    # ---- reach probes ------------------------------------------------------------------------------
+    def events(self, ps, action, s, ts, env, cfg):
+        if ps is None:
+            grid = np.asarray(s.grid)
+            locs = self._locs(s)
+            return ((["reset_multi_agent"] if len(locs) > 1 else ["reset_single_agent"]) + (["reset_nonsquare"] if grid.shape[0] != grid.shape[1] else [])
+                    + (["reset_agents_boxed_in"] if not self.legal(s, env).any() else []))
+        grid = np.asarray(ps.grid)
+        old = self._locs(ps)
+        new, g, cleaned, invalid = self._predict(ps, action)
+        ev = []
+        for i in invalid:
+            r, c = old[i][0] + DELTA[int(action[i])][0], old[i][1] + DELTA[int(action[i])][1]
+            inside = 0 <= r < grid.shape[0] and 0 <= c < grid.shape[1]
+            ev.append("agent_hits_wall" if inside else "agent_hits_border")
+        if invalid:
+            ev.append("end_invalid_action")
+            ev.append("all_agents_invalid" if len(invalid) == len(old) else "invalid_and_valid_moves_mixed")
+            if cleaned:
+                ev.append("tile_cleaned_on_invalid_step")
+        moved = [i for i in range(len(old)) if i not in invalid]
+        cells = [new[i] for i in moved]
+        if len(set(cells)) < len(cells):
+            ev.append("two_agents_on_one_cell")
+            if any(new[i] == new[j] and old[i] != old[j] for i in moved for j in moved if i < j):
+                ev.append("two_agents_converge_on_one_cell")
+            if any(new[i] == new[j] and grid[new[i]] == DIRTY for i in moved for j in moved if i < j):
+                ev.append("two_agents_clean_same_tile")
+        if any(new[i] == old[j] and new[j] == old[i] and old[i] != old[j] for i in moved for j in moved if i < j):
+            ev.append("two_agents_swap_cells")
+        ev.append("tiles_cleaned_%s" % ("0" if cleaned == 0 else "1" if cleaned == 1 else "ge2"))
+        if not invalid and not bool((g == DIRTY).any()):
+            ev.append("end_all_clean")
+        if len(old) > 1 and len(moved) >= 2:
+            ev.append("agents_moving_simultaneously_ge2")
+        return ev
+
     # ---- C12 -------------------------------------------------------------------------------------
     def observe(self, s, obs, env, cfg):
         if not np.array_equal(np.asarray(obs.grid), np.asarray(s.grid)):
